@@ -485,8 +485,8 @@ def run(ck: Check):
     ck.extra["triples_not_visited"] = len(cover)
     for rp in reports[:2]:
         ck.sample({"report": rp["id"], "conf": rp["_detail"]["conf"], "y": rp["_detail"]["y"]})
-    for i in range(0, len(reports), 400):
-        judge_reports(ck, reports[i:i + 400], tconst)
+    for i in range(0, len(reports), 200):
+        judge_reports(ck, reports[i:i + 200], tconst)
     ck.extra["reports_judged"] = len(reports)
 
 
